@@ -191,6 +191,14 @@ def _inverse(ck, rule, prog, f, temps, p):
                 c = F[3]
                 okc = (isinstance(c, ast.IfExp) and const_str(c.body) == "-complex" and const_str(c.orelse) == "") or const_str(c) in ("-complex", "")
                 ck.check(okc, rule, f, "complex objects get the '-complex' suffix (and only they)", "comp=%s" % src(c)[:60], node)
+                if const_str(c) == "":
+                    # the plain spelling is chosen only after the complex flag (self.vdtype, where resize / __init__ record a parsed '-complex') was found unset
+                    from ..common import path_literals
+                    seenv = any(isinstance(t, ast.Compare) and len(t.ops) == 1 and isinstance(t.ops[0], (ast.Eq, ast.Is)) and dotted(t.left) == "self.vdtype"
+                                and dotted(t.comparators[0]) == "complex" and not pol for t, pol in path_literals(pguards))
+                    ck.check(seenv, rule, f, "the suffix is dropped only when self.vdtype is not complex (the flag a parsed '-complex' is recorded in)",
+                             "plain template chosen under %s" % [(src(g[0])[:50], g[1]) for g in pguards][-2:], node,
+                             "an object declared complex by its dtype string (but holding real values) loses the suffix: dtype=x.dtype no longer reproduces x's format")
         else:
             q = F[0] if F else None
             if len(F) < 3:
@@ -253,6 +261,18 @@ def _inverse(ck, rule, prog, f, temps, p):
             oknf = grp(nf) == 3 or (isinstance(nf, ast.Constant) and nf.value == 0)
             if isinstance(nf, ast.Constant) and nf.value == 0:
                 oknw = oknw or True
+            try:
+                tn = mkterm(nw, rename=lambda d: d)
+                tf = mkterm(nf, rename=lambda d: d)
+                # n_int is whatever int(group2) denotes: the word must be exactly fraction + that (no correction term)
+                g2expr = None
+                for sub in ast.walk(nw):
+                    if isinstance(sub, ast.Call) and dotted(sub.func) == "int" and sub.args and grp(sub.args[0]) == 2:
+                        g2expr = sub
+                if g2expr is not None:
+                    oknw = oknw and (tn == tf + mkterm(g2expr, rename=lambda d: d))
+            except NotATerm:
+                pass
             ck.check(grp(sgn) == 1 and oknw and oknf, rule, p, "Q reader: n_frac = int(group3) (0 when absent), n_word = n_frac + int(group2)", "returns (%s, %s, %s)" % (src(sgn)[:30], src(nw)[:40], src(nf)[:30]), pf.ret_stmt,
                      "m.n must denote n_word = m + n")
             seen["q"] += 1
